@@ -317,6 +317,7 @@ pub async fn run(args: &Args, rep: &mut Reporter) {
                                                         match o.account.download_file(fid, sid, &name).await {
                                                             Ok(bytes) if &bytes == plain => {}
                                                             Ok(_) => rep.violation(&format!("C19:{which}:attachment_differs"), &format!("attachment of {sid} decrypts differently after the upgrade"), ctx.clone()),
+                                                            Err(e) if e.to_string().contains("Excessive work parameter") => rep.count("decrypt_skipped_machine_too_loaded", 1),
                                                             Err(e) => rep.violation(&format!("C19:{which}:attachment_missing"), &format!("attachment of {sid} unreadable after the upgrade: {e}"), ctx.clone()),
                                                         }
                                                     }
